@@ -151,6 +151,12 @@ def adapters(rng):
         v.a1(cat), v.a1(cat[::-1].copy()))))
     add(("metrics.binary", lambda v: metrics.binary(v.a2(np.array([[20., 3.], [4., 9.]])))))
     add(("sutils.acf", lambda v: sutils.acf(np.asarray(v.a1(obs)), 3)))
+    sel = (np.arange(n) % 3 != 0)
+    add(("sutils.acf-idx-bool", lambda v: sutils.acf(np.asarray(v.a1(obs), dtype=float), 2,
+                                                     idx=sel.copy() if v.kind != "strided"
+                                                     else np.repeat(sel, 2)[::2])))
+    add(("sutils.acf-idx-int", lambda v: sutils.acf(np.asarray(v.a1(obs), dtype=float), 1,
+                                                    idx=sel.astype(np.int64))))
     add(("sutils.lhs", lambda v: sutils.lhs(7, v.a1(np.zeros(3)), v.a1(np.ones(3) * 2))))
     add(("sutils.lhs_norm", lambda v: sutils.lhs_norm(7, np.asarray(v.a1(np.zeros(2))),
                                                      v.a2(np.eye(2)))))
@@ -226,6 +232,28 @@ def adapters(rng):
         return fd
 
     xy = rng.uniform(0, 6, size=(12, 2))
+    def gset(v):
+        # data assigned to a grid that already has bounds / no bounds, same and
+        # different dtype, values outside the bounds
+        vals = rng.normal(size=(6, 7)) * 3
+        for dt in (np.float64, np.int32):
+            for bounds in ((None, None), (-1, 1), (0, None)):
+                gg = g.Grid("b", 7, 6, dtype=dt)
+                if bounds[0] is not None:
+                    gg.mindata = bounds[0]
+                if bounds[1] is not None:
+                    gg.maxdata = bounds[1]
+                arr = v.a2(vals)
+                if v.kind == "contiguous":
+                    arr = np.ascontiguousarray(np.asarray(arr).astype(dt))
+                gg.data = arr
+                gg.fill(0)
+        one = g.Grid("r", 7, 1)
+        one.mindata = 0
+        one.data = np.asarray(v.a1(vals[0]), dtype=float) if v.kind != "pandas" \
+            else np.asarray(vals[0])
+        return None
+    add(("Grid.data-setter", gset))
     add(("Grid.coord2cell", lambda v: mk().coord2cell(v.a2(xy))))
     add(("Grid.cell2coord", lambda v: mk().cell2coord(v.a1(np.arange(10)))))
     add(("Grid.cell2rowcol", lambda v: mk().cell2rowcol(v.a1(np.arange(10)))))
